@@ -278,6 +278,88 @@ theorem scanClose_spec (close : Char) (rest p : Str) (l0 ls0 nl : Nat) (nls : Op
 
 end
 
+/-! ### ASCII-case-blind prefix test (`scan_for_text`, `find_word_start`) -/
+
+theorem toNat_ofNat_of_lt' {n : Nat} (h : n < 55296) : (Char.ofNat n).toNat = n := by
+  have hv : n.isValidChar := Or.inl h
+  unfold Char.ofNat
+  rw [dif_pos hv]
+  simp [Char.ofNatAux, ← Char.toNat_val]
+
+theorem toNat_toAsciiLower (c : Char) :
+    (toAsciiLower c).toNat = if 65 ≤ c.toNat ∧ c.toNat ≤ 90 then c.toNat + 32 else c.toNat := by
+  have h2 : 'A'.toNat = 65 := by decide
+  have h3 : 'Z'.toNat = 90 := by decide
+  unfold toAsciiLower
+  simp only [Char.le_def, UInt32.le_iff_toNat_le, Char.toNat_val, h2, h3]
+  split
+  · next h => exact toNat_ofNat_of_lt' (by omega)
+  · rfl
+
+/-- a character that is ASCII-case-equal to an ASCII character is ASCII (one byte) -/
+theorem ascii_of_toAsciiLower_eq {c d : Char} (h : toAsciiLower c = toAsciiLower d)
+    (hd : d.toNat < 128) : c.toNat < 128 := by
+  have := congrArg Char.toNat h
+  rw [toNat_toAsciiLower, toNat_toAsciiLower] at this
+  split at this <;> split at this <;> omega
+
+theorem utf8Size_eq_one_of_lt {c : Char} (h : c.toNat < 128) : c.utf8Size = 1 := by
+  have : c.val.toNat < 128 := h
+  unfold Char.utf8Size
+  have h1 : c.val ≤ 127 := by
+    rw [UInt32.le_iff_toNat_le]; simp; omega
+  simp [h1]
+
+/-- ASCII-case-equal to a character other than the line feed: not a line feed -/
+theorem ne_nl_of_toAsciiLower_eq {c d : Char} (h : toAsciiLower c = toAsciiLower d)
+    (hd : d ≠ '\n') : c ≠ '\n' := by
+  intro hc
+  subst hc
+  apply hd
+  have := congrArg Char.toNat h
+  rw [toNat_toAsciiLower, toNat_toAsciiLower] at this
+  have h10 : '\n'.toNat = 10 := by decide
+  rw [h10] at this
+  have hd10 : d.toNat = 10 := by
+    split at this <;> split at this <;> omega
+  have h1 := Char.ofNat_toNat d
+  rw [hd10] at h1
+  exact h1.symm
+
+/-- what a successful test says: the text starts with a slice of as many characters (and bytes)
+    as the ASCII literal, ASCII-case-equal to it character by character -/
+theorem startsWithIgnoreAsciiCase_spec {text buf : Str}
+    (h : startsWithIgnoreAsciiCase text buf = true) (ha : ∀ x ∈ text, x.toNat < 128) :
+    ∃ sp r, buf = sp ++ r ∧ ulen sp = ulen text ∧ sp.length = text.length ∧
+      (sp.map toAsciiLower = text.map toAsciiLower) := by
+  induction text generalizing buf with
+  | nil => exact ⟨[], buf, rfl, rfl, rfl, rfl⟩
+  | cons d ds ih =>
+    cases buf with
+    | nil => simp [startsWithIgnoreAsciiCase] at h
+    | cons c cs =>
+      simp only [startsWithIgnoreAsciiCase, Bool.and_eq_true, beq_iff_eq] at h
+      obtain ⟨sp, r, e1, e2, e3, e4⟩ := ih h.2 (fun x hx => ha x (by simp [hx]))
+      have hd := ha d (by simp)
+      have hc := ascii_of_toAsciiLower_eq h.1 hd
+      refine ⟨c :: sp, r, by simp [e1], ?_, by simp [e3], by simp [h.1, e4]⟩
+      simp only [ulen_cons, e2, utf8Size_eq_one_of_lt hc, utf8Size_eq_one_of_lt hd]
+
+theorem ne_nl_of_map_toAsciiLower_eq {sp text : Str}
+    (h : sp.map toAsciiLower = text.map toAsciiLower) (hno : ∀ x ∈ text, x ≠ '\n') :
+    ∀ x ∈ sp, x ≠ '\n' := by
+  induction sp generalizing text with
+  | nil => intro x hx; simp at hx
+  | cons c sp ih =>
+    cases text with
+    | nil => simp at h
+    | cons d ds =>
+      simp only [List.map_cons, List.cons.injEq] at h
+      intro x hx
+      rcases List.mem_cons.mp hx with rfl | hx
+      · exact ne_nl_of_toAsciiLower_eq h.1 (hno d (by simp))
+      · exact ih h.2 (fun y hy => hno y (by simp [hy])) x hx
+
 /-! ### suffix stripping (`tokenize_word`) -/
 
 theorem stripSuffix?_eq {suf w s : Str} (h : stripSuffix? suf w = some s) : w = s ++ suf := by
